@@ -29,6 +29,8 @@ CONSTANTS Chans,        \* channel ids (subset of {1, 2})
           FlowVariant,  \* "none" (as coded) | sensitivity variants:
                         \*   "adj_open_only"  WINDOW_ADJUST refused once the peer has sent EOF
                         \*   "close_forgets"  close() while an EOF waits behind unsent data is not armed
+                        \*   "no_credit_closing" (pre-repair, finding F32) data dropped while a close waits
+                        \*                    for unsent data is not given back to the peer's window
                         \*   "no_reply_closing"  (pre-repair, finding F28) no reply to a channel request
                         \*                    while a close waits for unsent data
           FailReqOnClose,   \* TRUE: an incoming CLOSE fails outstanding channel requests (repaired code)
@@ -76,6 +78,7 @@ Init ==
              ready |-> <<>>,                        \* deferred callbacks <<side, kind, ch>>
              nops |-> 0, ncuts |-> 0 ]
     /\ lbl = <<"init">> /\ script = <<>>
+    /\ TLCSet(7, {})          \* register used by EmitOpCtx (one worker)
 
 Idle == s.ready = <<>> /\ s.chunk[2] = 0
 \* packets written on a connection whose transport is gone are dropped
@@ -84,7 +87,10 @@ CloseMsgs(x, ch) == IF s.ss[x][ch] # "closed" /\ s.reg[x][ch] THEN <<Msg("CLOSE"
 Logged(x, ch, names) == IF s.hasSess[x][ch] THEN s.log[x][ch] \o names ELSE s.log[x][ch]
 Rep(n, v) == [i \in 1..n |-> v]
 
-Pre(x, ch) == <<s.ss[x][ch], s.rs[x][ch], s.reading[x][ch], s.rbufN[x][ch] > 0, s.sbufN[x][ch] > 0>>
+\* the context an operation is applied in (part of its label, so that scripts can be chosen
+\* to cover every operation in every context): own states and what the peer's send side is doing
+Pre(x, ch) == <<s.ss[x][ch], s.rs[x][ch], s.reading[x][ch], s.rbufN[x][ch] > 0, s.sbufN[x][ch] > 0,
+                s.ss[Other(x)][ch]>>
 
 Step(new, l) == /\ s' = new /\ lbl' = l
                 /\ script' = IF l[1] = "run" THEN script ELSE Append(script, l)
@@ -287,8 +293,13 @@ Deliver(x) ==
                   ELSE ProtoErr(s0, y)
              ELSE IF t = "DATA" THEN
                   IF regd /\ s.rs[y][ch] = "open"
-                  THEN IF s.ss[y][ch] \in {"close_pending", "closed"}
-                       THEN s0     \* dropped: channel closed by the session
+                  THEN IF s.ss[y][ch] = "closed" THEN s0     \* dropped: channel closed by the session
+                       ELSE IF s.ss[y][ch] = "close_pending"
+                       THEN \* dropped as well, but the own CLOSE is still waiting for window: the
+                            \* bytes are credited back, or two channels closing at the same time
+                            \* with exhausted windows would wait for each other for ever
+                            IF Flow /\ FlowVariant # "no_credit_closing"
+                            THEN [s0 EXCEPT !.net[y] = Append(@, Adj(ch, 1))] ELSE s0
                        ELSE IF s.reading[y][ch] = "reading"
                        THEN Consumed([s0 EXCEPT !.log[y][ch] = Logged(y, ch, <<"data_received">>)],
                                      y, ch, 1)
@@ -465,6 +476,14 @@ Terminates == \A x \in Sides : (~s.up[x]) ~> s.connClosed[x]
 \* TLC simulates; always TRUE
 EmitScript == (Quiescent /\ s.nops >= 3) => PrintT(ToString(<<"SCRIPT", script, s>>))
 
+\* emits, for every application operation IN EVERY CONTEXT (the label carries the channel states
+\* on both sides), the shortest behaviour that ends with it - including contexts that only exist
+\* in passing, which no quiescent final state remembers (run with one worker; always TRUE)
+OpNames == {"weof", "wdata", "pause", "resume", "close", "abort", "connclose", "connabort"}
+EmitOpCtx == (lbl[1] \in OpNames /\ lbl \notin TLCGet(7)) =>
+                 /\ TLCSet(7, TLCGet(7) \cup {lbl})
+                 /\ PrintT(ToString(<<"SCRIPT", script, s>>))
+
 \* witnesses
 NeverStarted == \A ch \in Chans : s.phase[ch] # "started"
 NeverErr == \A ch \in Chans : s.createW[ch] # "err"
@@ -477,10 +496,12 @@ NoWedge == Quiescent => \A x \in Sides, ch \in Chans :
         LET y == Other(x) IN
         \/ ~s.up[x] \/ ~s.up[y]
         \/ s.reading[y][ch] # "reading"
+        \* (a peer that is closing no longer consumes; what IT still has to send is CloseCompletes' business)
         \/ s.ss[y][ch] \in {"close_pending", "closed"} \/ ~s.reg[y][ch]
 \* a close() is carried out: once nothing is in flight the CLOSE has gone out, unless the unsent
 \* data in front of it is waiting for a peer that is not consuming
-Consuming(y, ch) == s.reg[y][ch] /\ s.reading[y][ch] = "reading" /\ s.ss[y][ch] \notin {"close_pending", "closed"}
+Consuming(y, ch) == s.reg[y][ch] /\ \/ s.reading[y][ch] = "reading" /\ s.ss[y][ch] \notin {"close_pending", "closed"}
+                                    \/ s.ss[y][ch] = "close_pending"   \* drops, but credits
 CloseCompletes == Quiescent => \A x \in Sides, ch \in Chans :
     (s.closeReq[x][ch] /\ s.reg[x][ch] /\ s.up[x] /\ s.up[Other(x)] /\ Consuming(Other(x), ch))
         => s.ss[x][ch] = "closed"
